@@ -102,6 +102,35 @@ theorem entries_exact_iff (s : State) (hs : Inv s) :
       refine List.mem_map.mpr ⟨(k, mkPhrase t w), List.mem_filter.mpr ⟨mem_btEntries.mpr ⟨w, hw, rfl⟩, hgrave _ rfl rfl⟩, rfl⟩
     exact hnd.2.2 _ m1 _ m2 rfl
 
+/-- F10, exactly what the code does inside class UpdatePersisted: for a live key with the persisted
+    phrase `pOld` and the pending value `w`, the exact lookup returns one phrase with that text — the
+    persisted or the pending one — carrying the *larger* of the two frequencies (the map holds `w`) -/
+theorem shadowed_lookup_reports_larger (s : State) (hs : Inv s) (k : Key) (t : Text) (pOld : Phrase) (w : Val)
+    (hg : (k, t) ∉ s.grave) (hl : ∃ l ∈ s.snap, l.1 = k ∧ pOld ∈ l.2) (ht : pOld.text = t)
+    (hw : ((k, t), w) ∈ s.btree) :
+    abs s (k, t) = some w ∧
+    ∃ r ∈ lookupAll s k .standard, r.text = t ∧ (r = pOld ∨ r = mkPhrase t w) ∧
+      pOld.freq ≤ r.freq ∧ w.1 ≤ r.freq := by
+  have hcOld : pOld ∈ entriesIterFor s k .standard := (mem_cands hs).mpr ⟨by rw [ht]; exact hg, Or.inl hl⟩
+  have hcNew : mkPhrase t w ∈ entriesIterFor s k .standard :=
+    (mem_cands hs).mpr ⟨hg, Or.inr ⟨w, hw, rfl⟩⟩
+  refine ⟨(absOver_eq_some hs.snap hs.bt).mpr ⟨hg, Or.inl hw⟩, ?_⟩
+  obtain ⟨r, hr, er, hf⟩ := dedup_max hcOld
+  have ert : r.text = t := by rw [er, ht]
+  have hf2 : (mkPhrase t w).freq ≤ r.freq := dedup_highest hr hcNew (by rw [ert]; rfl)
+  refine ⟨r, hr, ert, ?_, hf, hf2⟩
+  obtain ⟨_, h⟩ := (mem_cands hs).mp (mem_of_mem_dedup hr)
+  rcases h with h | ⟨v, hv, hrv⟩
+  · left
+    have h1 : r ∈ Trie.lookupAll s.snap k .standard := (mem_lookupAll_std hs.snap).mpr h
+    have h2 : pOld ∈ Trie.lookupAll s.snap k .standard := (mem_lookupAll_std hs.snap).mpr hl
+    exact (leafOk_lookupAll_std hs.snap k).unique h1 h2 (by rw [ert, ht])
+  · right
+    rw [ert] at hv hrv
+    have := hs.bt.unique hv hw rfl
+    simp only [Prod.mk.injEq, true_and] at this
+    rw [hrv, this]
+
 /-- prefix lookup outside classes FuzzyOverTombstoneOrPending and UpdatePersisted: one entry per
     phrase live under a matching key, with the highest frequency among them -/
 theorem fuzzy_exact (s : State) (hs : Inv s) (q : Key) (hq : fuzzyMatch q q = true)
